@@ -103,6 +103,15 @@ func genC15(r *rand.Rand, n int) c15Input {
 			in.Ops = append(in.Ops, []any{"alloc", r.Intn(scopes), name()})
 		case k == 9:
 			in.Ops = append(in.Ops, []any{"suggest", r.Intn(scopes), name()})
+		case k == 10 && r.Intn(4) == 0:
+			// a variable of a predeclared named type (`error`, `any`, `comparable`): no import, but the type name is a
+			// name of the scope like any other; the variable may itself be called like the type
+			tn := pick(r, []string{"error", "any", "comparable"})
+			vn := varNameOf(name())
+			if r.Intn(2) == 0 {
+				vn = tn
+			}
+			in.Ops = append(in.Ops, []any{"addvar", r.Intn(scopes), vn, "", "", tn, false})
 		case k == 10 && r.Intn(2) == 0:
 			// a variable of a named type: AddVar registers the import and makes qualifier and type string visible
 			in.Ops = append(in.Ops, []any{"addvar", r.Intn(scopes), varNameOf(name()), pick(r, pkgNames), pick(r, pathPool), pick(r, []string{"T", "Client", "http"}), false})
@@ -232,6 +241,9 @@ func (c15) Run(c *Ctx, raw json.RawMessage) Case {
 				vr = types.NewVar(0, nil, vname, types.Typ[types.Int])
 				repl = &config.ReplaceType{PkgPath: ppath, TypeName: tname}
 				tags["addvar-replaced"] = true
+			} else if ppath == "" {
+				vr = types.NewVar(0, nil, vname, types.Universe.Lookup(tname).Type())
+				tags["addvar-universe"] = true
 			} else {
 				vr = types.NewVar(0, nil, vname, types.NewNamed(types.NewTypeName(0, types.NewPackage(ppath, pname), tname, nil), types.Typ[types.Int], nil))
 				tags["addvar"] = true
@@ -247,6 +259,17 @@ func (c15) Run(c *Ctx, raw json.RawMessage) Case {
 				bad("suggest-collision", "AddVar named the variable %q, which was already visible", v.Name)
 			}
 			self := in.InPkg && ppath == in.Dst
+			if ppath == "" {
+				// the bare type name is used in the signature: it has to be a visible name from now on
+				if !sc.NameExists(tname) {
+					bad("type-name-not-visible", "AddVar of a variable of type %s: %q is not a visible name of the scope afterwards, a later name (or this variable's) may capture it", tname, tname)
+				}
+				if v.Name == tname {
+					bad("suggest-collision", "AddVar named the variable %q like its own type", v.Name)
+				}
+				t.seen[tname] = true
+				break
+			}
 			q, qerr := reg.Imports().PkgQualifier(ppath)
 			switch {
 			case self:
